@@ -343,6 +343,24 @@ func c07Gen(r *proto.Rng, n int, tier string, emit func(in ...string)) {
 			emit("T", proto.L(c07Header(r, i%80 == 79)))
 		case i%40 == 19:
 			emit("T", proto.L(c07Quoted(r)))
+		case i%100 == 7:
+			// "any number of ranges": 30-70 ranges of which only the LAST one (or the best one) matters, on one
+			// line or spread over several; and q-values that differ in a late digit only
+			k := 30 + r.Intn(41)
+			parts := make([]string, k)
+			for j := range parts {
+				parts[j] = "x-none/t" + proto.N(j) + ";q=0." + proto.N(1+r.Intn(8))
+			}
+			parts[k-1] = r.Pick("application/json", "text/plain;q=0.9", "text/*;q=0.95")
+			lines := []string{strings.Join(parts, ", ")}
+			if r.Chance(1, 2) {
+				lines = []string{strings.Join(parts[:k/2], ","), strings.Join(parts[k/2:], ",")}
+			}
+			emit("N", proto.L(lines), proto.L([]string{"image/png", "text/plain", "application/json"}), proto.B(r.Pick("", "image/png")))
+			d := r.Intn(12)
+			z := strings.Repeat("0", d)
+			emit("N", proto.L([]string{"text/plain;q=0." + z + "1234, application/json;q=0." + z + "1239", "image/png;q=0." + z + "0005"}),
+				proto.L([]string{"image/png", "text/plain", "application/json"}), proto.B(""))
 		case i%10 < 2:
 			emit("P", proto.L(c07Header(r, false)))
 		case i%10 < 8:
